@@ -1678,3 +1678,64 @@ Example C06_frame_segments_FileCanon_inhabited :
   /\ path_segments_session true fc_url fc_ops = Some (with_path fc_url (B "/d%20e/C|"), SOk)
   /\ ser (with_path fc_url (B "/d%20e/C|")) = B "file://h.example/d%20e/C|?q#f".
 Proof. exact file_canon_session_example. Qed.
+
+(* 33. The session RESULT on a canonical file record is canonical again (Proofs/C06_SegFileCls.v, C06_SegFileClsEx.v).
+   C06_psm_canon_file: for a FileCanon record u of C02 and any sequence of clear / pop / pop_if_empty / push / extend with
+   ANY &str arguments whose pushed segments, after the removal of TAB / LF / CR, do not begin with an ASCII letter followed by
+   ':' or '|' (session_arg_nd: computable on the arguments alone; it implies file_session_ok on every path text -
+   C06_session_arg_nd_ok), the returned record is FileCanon again and is with_path u (session_text STFile (path_bytes u) ops).
+   The proof follows C06_psm_canon: the session is an operation on the canonical path (segments, last segment); a pushed
+   segment is clean for PATH, free of '/' and '\', not a dot segment and - by the side condition - not drive-letter-like
+   (fseg_ok); the first segment stays non-empty.  The side condition is needed: clear, push("C|") on file:///tmp/a returns
+   file:///C:, a record of C02's class Known_file_drive (in the example). *)
+From RU Require Import Proofs.C06_SegFileCls Proofs.C06_SegFileClsEx.
+
+Theorem C06_psm_canon_file : forall dbg hp hpo hd u ops u', HostRT hp hpo hd -> FileCanon hp hd u ->
+  session_arg_nd ops = true -> Forall psm_op_usv ops ->
+  path_segments_session dbg u ops = Some (u', SOk) -> nlen (ser u') <= U32_MAX_P ->
+  FileCanon hp hd u' /\ u' = with_path u (session_text STFile (path_bytes u) ops).
+Proof. intros dbg hp hpo hd u ops u' HRT. exact (psm_FileCanon_arg dbg hp hpo hd HRT u ops u'). Qed.
+Check C06_psm_canon_file : forall dbg hp hpo hd u ops u', HostRT hp hpo hd -> FileCanon hp hd u ->
+  session_arg_nd ops = true -> Forall psm_op_usv ops ->
+  path_segments_session dbg u ops = Some (u', SOk) -> nlen (ser u') <= U32_MAX_P ->
+  FileCanon hp hd u' /\ u' = with_path u (session_text STFile (path_bytes u) ops).
+Print Assumptions C06_psm_canon_file.
+
+(* the weaker side condition on the WRITTEN texts (session_nd: the percent-encoded text of every pushed segment that is
+   not skipped does not begin like a drive letter) suffices *)
+Theorem C06_psm_canon_file_nd : forall dbg hp hpo hd u ops u', HostRT hp hpo hd -> FileCanon hp hd u ->
+  session_nd ops = true -> Forall psm_op_usv ops ->
+  path_segments_session dbg u ops = Some (u', SOk) -> nlen (ser u') <= U32_MAX_P ->
+  FileCanon hp hd u' /\ u' = with_path u (session_text STFile (path_bytes u) ops).
+Proof. intros dbg hp hpo hd u ops u' HRT. exact (psm_FileCanon_nd dbg hp hpo hd HRT u ops u'). Qed.
+Check C06_psm_canon_file_nd : forall dbg hp hpo hd u ops u', HostRT hp hpo hd -> FileCanon hp hd u ->
+  session_nd ops = true -> Forall psm_op_usv ops ->
+  path_segments_session dbg u ops = Some (u', SOk) -> nlen (ser u') <= U32_MAX_P ->
+  FileCanon hp hd u' /\ u' = with_path u (session_text STFile (path_bytes u) ops).
+Print Assumptions C06_psm_canon_file_nd.
+
+(* the side conditions are ordered: on the arguments => on the written texts => file_session_ok on every path text *)
+Theorem C06_session_arg_nd_ok : forall ops P, session_arg_nd ops = true ->
+  session_nd ops = true /\ file_session_ok P ops = true.
+Proof.
+  intros ops P H. pose proof (session_arg_nd_nd ops H) as H2. split; [exact H2 | exact (session_nd_ok ops P H2)].
+Qed.
+Check C06_session_arg_nd_ok : forall ops P, session_arg_nd ops = true ->
+  session_nd ops = true /\ file_session_ok P ops = true.
+Print Assumptions C06_session_arg_nd_ok.
+
+(* file:///tmp/a: pop, push("b c"), pop_if_empty, extend(["..", "<TAB>d"]), push("1:") gives file:///tmp/b%20c/d/1:;
+   one push, one pop; and the excluded clear, push("C|") *)
+Example C06_psm_canon_file_inhabited :
+  HostRT ex_hp ex_hp ex_hd /\ FileCanon ex_hp ex_hd fx_url /\ ser fx_url = B "file:///tmp/a"
+  /\ session_arg_nd fx_ops = true /\ Forall psm_op_usv fx_ops
+  /\ path_segments_session true fx_url fx_ops = Some (fx_res, SOk)
+  /\ ser fx_res = B "file:///tmp/b%20c/d/1:" /\ FileCanon ex_hp ex_hd fx_res
+  /\ (exists u1, path_segments_session true fx_url [PPush (B "x y")] = Some (u1, SOk) /\ ser u1 = B "file:///tmp/a/x%20y"
+                 /\ FileCanon ex_hp ex_hd u1)
+  /\ (exists u2, path_segments_session true fx_url [PPop] = Some (u2, SOk) /\ ser u2 = B "file:///tmp"
+                 /\ FileCanon ex_hp ex_hd u2)
+  /\ session_arg_nd [PClear; PPush (B "C|")] = false
+  /\ (exists u3, path_segments_session true fx_url [PClear; PPush (B "C|")] = Some (u3, SOk) /\ ser u3 = B "file:///C:"
+                 /\ Known_file_drive u3 = true).
+Proof. exact file_tmp_a_session. Qed.
